@@ -198,7 +198,6 @@ func VP_C09_failpack() {
 	vp.Cover("end")
 }
 
-
 // compressed frames: a stream that ends (or fails) anywhere inside the frame
 // is an error, and fragmentation does not change the result.
 func VP_C09_compressed_frame() {
@@ -221,5 +220,20 @@ func VP_C09_compressed_frame() {
 		r := &vpFailReader{b: frame, failAt: f, eof: vp.Bool()}
 		vp.Assert(q.UnPack(r, t) != nil, "truncated frame is an error")
 	}
+	vp.Cover("end")
+}
+
+// Pack with compression reports a failing writer.
+func VP_C09_failpack_compressed() {
+	id := vp.Int32()
+	vp.Assume(id >= 0 && id < 128) // id width is C07's subject
+	p := Packet{ID: id, Data: vp.Bytes(vp.Choice(4))}
+	t := vp.Choice(3)
+	var probe bytes.Buffer
+	vp.Assert(p.Pack(&probe, t) == nil, "Pack")
+	total := probe.Len()
+	k := vp.Choice(total)
+	w := &vpFailWriter{limit: k}
+	vp.Assert(p.Pack(w, t) != nil, "write failure is reported")
 	vp.Cover("end")
 }
